@@ -31,15 +31,18 @@ func RegisterSafeType(t reflect.Type) {
 var safeTypeRegistry = map[reflect.Type]bool{}
 
 // isRegisteredSafe tells whether a value reached by reflection, of
-// type t, is of a registered safe type. The registry is keyed by
-// concrete types: for an interface value (an element of a
-// []interface{}, a map value...) what counts is the type of the value
-// it holds, which is the one whose methods get called.
+// type t, is of a registered safe type. For an interface value (an
+// element of a []interface{}, a map value...) the type of the value
+// it holds, which is the one whose methods get called, counts as
+// well as the type of the slot.
 func isRegisteredSafe(value reflect.Value, t reflect.Type) bool {
-	if value.Kind() == reflect.Interface && !value.IsNil() {
-		t = value.Elem().Type()
+	if safeTypeRegistry[t] {
+		return true
 	}
-	return safeTypeRegistry[t]
+	if value.Kind() == reflect.Interface && !value.IsNil() {
+		return safeTypeRegistry[value.Elem().Type()]
+	}
+	return false
 }
 
 func isSafeValue(a interface{}) bool {
